@@ -33,7 +33,7 @@ def qj(x):
 # second tie (DESIGN 2.6): _do_put/_do_get of Container, Store, PriorityStore translated from the tree under
 # test on every run (vlib/translate.py, fail closed) into coq/Gen/Extracted_container.v / Extracted_store.v;
 # bridged to Res/ContainerStore.v by coq/Res/ContainerStoreBridge.v; obligations in Props/C07_Bridge.v.
-# FilterStore._do_get (a for loop) is outside the translated subset.
+# FilterStore._do_get: one iteration of its for loop, see props/res_tie.py.
 
 CONT_READS = [("self._capacity", "capacity", "Q"),            # a finite capacity (float('inf') is not a rational:
               ("event.amount", "amount", "Q")]                #   the unbounded container is tied by the correspondence only)
@@ -69,7 +69,7 @@ def extracted_store(repo):
 
 class C07(Prop):
     id = "C07"
-    props_file = ["Props/C07.v", "Props/C07_Bridge.v", "Props/C07_BridgeLoop.v", "Props/C07_Examples.v"]
+    props_file = ["Props/C07.v", "Props/C07_Bridge.v", "Props/C07_BridgeLoop.v", "Props/C07_BridgeFilter.v", "Props/C07_Examples.v"]
     coq_imports = ["From ONL Require Import Base.Cmp Res.Heap Res.ContainerStore Res.ContainerStoreObs."]
     n_quick = 3000
     n_thorough = 40000
